@@ -18,10 +18,11 @@ SCHEMAS = {
     31: "UpdateHeader", 32: "UpdateInstructionSignature", 33: "UpdateInstruction", 34: "UpdatePayload",
     35: "BlockItem<EncodedPayload>", 36: "LeverageFactor", 37: "MintDistributionV0", 38: "PoolParameters",
     39: "TimeoutParameters", 40: "AccountThreshold", 41: "TransactionFeeDistribution", 42: "GASRewards",
-    43: "UpdateKeysThreshold",
+    43: "UpdateKeysThreshold", 44: "AccessStructure", 45: "HigherLevelAccessStructure", 46: "AuthorizationsV0",
+    47: "RootUpdate", 48: "Level1Update", 49: "ArInfo",
 }
 PAYLOAD_TAGS = {3, 4, 5, 6, 7, 8, 13, 17, 19, 21, 22, 24, 25, 26}
-UPDATE_TAGS = {2, 3, 4, 5, 6, 7, 8, 9, 14, 15, 16, 17, 18, 19, 20, 21, 22, 23}
+UPDATE_TAGS = {2, 3, 4, 5, 6, 7, 8, 9, 10, 11, 12, 14, 15, 16, 17, 18, 19, 20, 21, 22, 23}
 # sum types of which only some variants have a schema term: variant tags that ARE modelled
 PARTIAL = {27: PAYLOAD_TAGS, 28: PAYLOAD_TAGS, 34: UPDATE_TAGS, 35: {0, 2, 3}}
 
@@ -205,6 +206,30 @@ def run(ctx):
         if len(p) == 2 and p[0].isdigit():
             cases.append((int(p[0]), p[1], "impl"))
             impl_ids.add(int(p[0]))
+    # ---- (b') one or more VALUES of every variant of every hand-written sum type (exhaustive matches in the harness)
+    n_rep = 3 if quick else 25
+    rc, out = c.run_bin(binp, ["variants", ctx.seed, n_rep], timeout=3000)
+    vlines = [json.loads(l) for l in out.splitlines() if l.startswith("{")]
+    vcov = [d for d in vlines if d.get("k") == "variant_coverage"]
+    vres = [d for d in vlines if d.get("k") == "variant"]
+    variant_fail = []
+    if rc != 0 or not vcov:
+        ctx.violation({"layer": "harness variants", "rc": rc, "output": out[-1500:]},
+                      "per-variant value oracle run failed (%s)" % ("setup failed" if any(d.get("k") == "variant_setup_failed" for d in vlines) else "crash"),
+                      no_input=True)
+    else:
+        cov = vcov[0]
+        if cov["missing"] or cov["unlisted"]:
+            ctx.violation({"layer": "variant coverage", "missing": cov["missing"], "unlisted": cov["unlisted"]},
+                          "enum variants without a constructed value: %s" % (cov["missing"] or cov["unlisted"]), no_input=True)
+        ctx.notes["variant_coverage"] = cov["coverage"]
+    for d in vres:
+        if not d["ok"]:
+            variant_fail.append(d)
+        elif d.get("id") is not None:
+            cases.append((int(d["id"]), d["hex"], "variant"))
+    ctx.notes["variant_values"] = {"constructed": len(vres), "failed": len(variant_fail),
+                                   "debug_form_equal_to_original": sum(1 for d in vres if d.get("debug_equal"))}
     # ---- (c) malformed stream
     rnd = random.Random(ctx.seed * 7919 + 5)
     mdist = {}
@@ -221,9 +246,9 @@ def run(ctx):
                 cases.append((i, m, "mut"))
     for i, h, exp, what in CORPUS:
         cases.append((i, h, "corpus"))
-    ctx.log("cases: %d (model %d, impl %d, malformed %d)" % (
+    ctx.log("cases: %d (model %d, impl %d, variant values %d, malformed %d)" % (
         len(cases), sum(1 for x in cases if x[2] == "model"), sum(1 for x in cases if x[2] == "impl"),
-        sum(1 for x in cases if x[2] == "mut")))
+        sum(1 for x in cases if x[2] == "variant"), sum(1 for x in cases if x[2] == "mut")))
 
     # ---- run both sides
     impl, huge = run_impl(ctx, binp, [(str(i), h) for i, h, _ in cases])
@@ -244,6 +269,9 @@ def run(ctx):
         if nviol <= 12:
             ctx.violation(obj, summary)
 
+    for d in variant_fail:
+        viol({"type": d["enum"], "variant": d["variant"], "input": d["hex"][:4000], "why": d["why"]},
+             "%s::%s: value oracle failed (%s) on encoding %s" % (d["enum"], d["variant"], "; ".join(d["why"])[:200], d["hex"][:120]))
     max_ratio = 0.0
     max_model_alloc = 0
     for (i, h, origin), r, ml in zip(cases, impl, mlines):
@@ -280,10 +308,10 @@ def run(ctx):
                 continue
         else:
             pt["rejected"] += 1
-        if origin in ("model", "impl") and r["r"] != "A":
+        if origin in ("model", "impl", "variant") and r["r"] != "A":
             viol(rep, "%s: %s-generated valid encoding rejected by the implementation: %s" % (name, origin, h[:120]))
             continue
-        if origin in ("model", "impl") and r["c"] != n:
+        if origin in ("model", "impl", "variant") and r["c"] != n:
             viol(rep, "%s: valid encoding not consumed exactly (%d of %d bytes)" % (name, r["c"], n))
             continue
         # correspondence
@@ -329,7 +357,7 @@ def run(ctx):
     hl = [l for l in out.splitlines() if l.startswith("HUGE-ALLOC")]
     rc_t, out_t = c.run_bin(binp, ["types"])
     unmodelled = json.loads(out_t.splitlines()[-1])["unmodelled"] if rc_t == 0 else []
-    expected_types = len(unmodelled) + 43
+    expected_types = len(unmodelled) + len(SCHEMAS)
     if rc != 0 or len(fz) < expected_types:
         last = fz[-1]["type"] if fz else "(none)"
         viol({"layer": "fuzz", "rc": rc, "types_done": len(fz), "after_type": last, "tail": out[-800:], "huge": hl[:3]},
@@ -361,13 +389,13 @@ def run(ctx):
                        "bytes, second round trip, no panic, peak allocation) on every case and on byte-fuzzed inputs for all types")
     ctx.notes["correspondence"] = stats
     ctx.notes["mutation_distribution"] = mdist
-    ctx.notes["origin_distribution"] = {o: sum(1 for x in cases if x[2] == o) for o in ("model", "impl", "mut", "corpus")}
+    ctx.notes["origin_distribution"] = {o: sum(1 for x in cases if x[2] == o) for o in ("model", "impl", "variant", "mut", "corpus")}
     ctx.notes["per_type"] = per_type
     ctx.notes["impl_generators_for"] = sorted(SCHEMAS[i] for i in impl_ids)
     ctx.notes["max_peak_bytes_per_input_byte"] = round(max_ratio, 1)
     ctx.notes["max_model_alloc_units"] = max_model_alloc
     ctx.notes["unmodelled_types"] = unmodelled
-    ctx.notes["unmodelled_variants"] = {"Payload": "tags 0,1,2,16,18,20,23,27", "UpdatePayload": "tags 1,10,11,12,13,24",
+    ctx.notes["unmodelled_variants"] = {"Payload": "tags 0,1,2,16,18,20,23,27", "UpdatePayload": "tags 1,13,24",
                                         "BlockItem": "tag 1 (credential deployment)"}
     ctx.notes["byte_fuzz"] = fuzz_tab
     ctx.notes["fixed_findings"] = [f for f in kf.get("fixed", []) if "C05" in str(f)]
